@@ -248,9 +248,21 @@ def command_arms(cl):
     return arms, hdr, rt[0][0]
 
 
-def r4(F, R, rid="C12-R4", commands=(("Pause", "ChainProcess::pause"), ("Continue", "ChainProcess::resume"))):
-    R.rule(rid, "in the controller, the arm of each of %s calls the per-chain operation in a loop over all chain handles that dominates the acknowledging "
-                "responses_tx.send" % [c for c, _ in commands])
+def _is_op(cl, t, op):
+    """Is call terminator t the per-chain operation `op`? `send:<Variant>` = a ChainCommand::<Variant> sent into a chain's mailbox
+    (ChainProcess::pause / resume are inlined into the controller), otherwise a call of the named method."""
+    c = t["callee"]
+    if op.startswith("send:"):
+        if not strip_generics(c.get("path", "")).endswith("Sender::send") or len(t["args"]) < 2:
+            return False
+        v = cl.value(t["args"][1])
+        return v[0] == "agg" and str(v[1]).endswith("ChainCommand::" + op[5:])
+    return path_ends(c.get("path", ""), op)
+
+
+def r4(F, R, rid="C12-R4", commands=(("Pause", "send:Pause"), ("Continue", "send:Resume")), closure_adaptors=("for_each",)):
+    R.rule(rid, "in the controller, the arm of each of %s performs the per-chain operation (%s) for every chain handle - a loop over `chains`, or a closure "
+                "given to %s on `chains.iter()` - before the acknowledging responses_tx.send" % ([c for c, _ in commands], [o for _, o in commands], list(closure_adaptors)))
     cl = controller_loop(F)
     if cl is None:
         R.missing(rid, "controller command loop")
@@ -268,9 +280,30 @@ def r4(F, R, rid="C12-R4", commands=(("Pause", "ChainProcess::pause"), ("Continu
             continue
         others = [t for c, t in arms.items() if c != cmd]
         reach = cl.reach_from(arms[cmd], avoid=[hdr] + others)
-        ops = [(bb, t) for bb, t in cl.calls() if bb in reach and path_ends(t["callee"].get("path", ""), op)]
+        ops = [(bb, t) for bb, t in cl.calls() if bb in reach and _is_op(cl, t, op)]
         sends = [(bb, t) for bb, t in cl.calls() if bb in reach and strip_generics(t["callee"].get("path", "")).endswith("SyncSender::send")]
         loops = cl.natural_loops()
+        # closure form: chains.iter().for_each(|chain| op(chain)) (try_for_each where stopping at the first failure is the specified behaviour)
+        if not ops and len(sends) == 1:
+            hit = None
+            for bb, t in cl.calls():
+                c_ = t["callee"]
+                nm = strip_generics(c_.get("path", "")).split("::")[-1]
+                if bb in reach and nm in closure_adaptors and c_.get("closures") and strip_generics(c_.get("path", "")).startswith(("std::iter::Iterator::", "core::iter::Iterator::")):
+                    rv_ = cl.value(t["args"][0]) if t["args"] else None
+                    over_chains = rv_ is not None and any(n[0] == "upvar" and "chains" in n[1] for n in vt_walk(rv_))
+                    ity = cl.local_ty(K.root_local(cl, t["args"][0])) if t["args"] else ""
+                    plain = ity.replace("&mut ", "").startswith(("std::slice::Iter<", "std::vec::IntoIter<", "std::slice::IterMut<"))
+                    inner_ops = 0
+                    for cp_ in c_["closures"]:
+                        cb_ = F.bodies.get(cp_)
+                        if cb_ is not None:
+                            inner_ops += sum(1 for _b2, t2 in cb_.calls() if _is_op(cb_, t2, op))
+                    if inner_ops == 1 and over_chains and plain:
+                        hit = (bb, t, nm)
+            if hit and cl.dominates(hit[0], sends[0][0]):
+                R.ok(rid, key, "%s @%s" % (cl.path, loc(hit[1]["span"])), "%s is applied to every chain by chains.iter().%s(..) before the acknowledgement" % (cmd, hit[2]))
+                continue
         if len(ops) != 1 or len(sends) != 1:
             R.bad(rid, key, site, "%s arm: %d calls of %s, %d acknowledgements (expected 1 and 1)" % (cmd, len(ops), op, len(sends)))
             continue
